@@ -106,6 +106,9 @@ def recv_direction(smw, cmw, snct, cnct, msgs, final_block_at=None, frag=None):
             return 'message #%d delivered with wrong content (%s, %d bytes instead of %d)' % (k, g[0], len(g[1]), len(x[1]))
     if len(got) < len(expect) and not npe:
         return 'only %d of %d messages delivered and no ProtocolError' % (len(got), len(expect))
+    if final_block_at is None and (npe or len(got) != len(expect)):
+        # the peer's stream is valid for the negotiated parameters: nothing may be lost or refused
+        return 'valid compressed stream: %d of %d messages delivered, %d ProtocolError event(s)' % (len(got), len(expect), npe)
     return None
 
 
@@ -120,7 +123,7 @@ def battery(configs=None, eof=True):
         for frag in (False, True):
             err = recv_direction(smw, cmw, snct, cnct, msgs, frag=frag)
             if err:
-                yield dict(found=True, input='peer sends compressed%s; server_max_window_bits=%s server_no_context_takeover=%s' % (' fragmented with a Ping between fragments' if frag else '', smw, bool(snct)),
+                yield dict(found=True, input='peer sends compressed%s; server_max_window_bits=%s client_max_window_bits=%s server_no_context_takeover=%s client_no_context_takeover=%s' % (' fragmented with a Ping between fragments' if frag else '', smw, cmw, bool(snct), bool(cnct)),
                            expected='every message delivered with its original content', observed=err)
         if eof:
             err = recv_direction(smw, cmw, snct, cnct, msgs[2:5], final_block_at=0)
